@@ -164,4 +164,61 @@ theorem run_history (env : Env) (f : Frame) (m : Cache) (calls : List (Bool × S
     simp only [Mat.run, List.map_cons, ih]
     rfl
 
+
+/-! ## structured specs -/
+
+theorem mapE_mem {α β ε : Type} {f : α → Except ε β} {xs : List α} {ys : List β} (h : mapE f xs = .ok ys)
+    {y : β} (hy : y ∈ ys) : ∃ x ∈ xs, f x = .ok y := by
+  induction xs generalizing ys with
+  | nil => simp only [mapE, Except.ok.injEq] at h; subst h; cases hy
+  | cons x xs ih =>
+    simp only [mapE] at h
+    cases hx : f x with
+    | error e => simp [hx] at h
+    | ok y0 =>
+      cases hr : mapE f xs with
+      | error e => simp [hx, hr] at h
+      | ok r =>
+        simp only [hx, hr, Except.ok.injEq] at h
+        subst h
+        rcases List.mem_cons.1 hy with rfl | hy
+        · exact ⟨x, by simp, hx⟩
+        · obtain ⟨x', hx', hf⟩ := ih hr hy
+          exact ⟨x', by simp [hx'], hf⟩
+
+/-- the pool stays free of half-fitted states while the parts are materialised one after the other -/
+theorem poolAfter_complete (env : Env) (f : Frame) (specs : List Spec) (hnone : ∀ s ∈ specs, s.structure_ = none)
+    (pool0 : TStates) (hsc : StatesComplete env pool0) (pool : TStates)
+    (h : poolAfter env f pool0 specs = .ok pool) : StatesComplete env pool := by
+  induction specs generalizing pool0 with
+  | nil => simp only [poolAfter, Except.ok.injEq] at h; subst h; exact hsc
+  | cons s rest ih =>
+    simp only [poolAfter] at h
+    cases hm : materialize env { s with transformState := pool0 } f with
+    | error e => simp [hm] at h
+    | ok r =>
+      obtain ⟨s', m⟩ := r
+      simp only [hm] at h
+      have h2 := (materialize_fit env { s with transformState := pool0 } (hnone s (by simp)) hsc f s' m hm).2.1
+      exact ih (fun t ht => hnone t (by simp [ht])) s'.transformState h2 h
+
+/-- **Every part of a structured fit is an ordinary fit under the pooled state**: the spec attached to
+each part is ready for replay on its own — every stateful call of its factors, nested ones included,
+finds a recorded state — and replaying it on the training frame reproduces the part. -/
+theorem materializeParts_fit (env : Env) (specs : List Spec) (hnone : ∀ s ∈ specs, s.structure_ = none)
+    (hsc : StatesComplete env (poolOf specs)) (f : Frame) (rs : List (Spec × List Entry))
+    (h : materializeParts env specs f = .ok rs) :
+    ∀ r ∈ rs, Ready env r.1 ∧ StatesComplete env r.1.transformState ∧ materialize env r.1 f = .ok r := by
+  unfold materializeParts at h
+  cases hp : poolAfter env f (poolOf specs) specs with
+  | error e => simp [hp] at h
+  | ok pool =>
+    simp only [hp] at h
+    have hpc := poolAfter_complete env f specs hnone _ hsc pool hp
+    intro r hr
+    obtain ⟨s, hs, hm⟩ := mapE_mem h hr
+    obtain ⟨s', m⟩ := r
+    obtain ⟨h1, h2, _, h4⟩ := materialize_fit env { s with transformState := pool } (hnone s hs) hpc f s' m hm
+    exact ⟨h1, h2, h4⟩
+
 end FormulaicVerif.Proofs.C04
